@@ -216,6 +216,7 @@ class Model:
                 g[st.name] = Func(st, g, self.interp)
         self.methods = {f.name: f for f in self.cls.body
                         if isinstance(f, ast.FunctionDef)}
+        self.rectified = {}
         g["IntegrityChecker"] = Namespace(
             "IntegrityChecker",
             **{"__dict__": {n: Func(f, g, self.interp)
@@ -269,16 +270,42 @@ class Model:
         return Func(f, self.globs, self.interp)(me, **kwargs)
 
 
-def collected_names(model, pattern):
-    return sorted(n for n in model.methods if n.startswith(pattern))
+def collected_sets(model, chk):
+    """names the interpreted collector calls for the real class dictionary
+    -> (without fluorescence, with fluorescence)"""
+    out = []
+    for has_fl in (False, True):
+        calls = []
+
+        def rec(n):
+            def f(self_, **kw):
+                calls.append(n)
+                return []
+            f.model_callable = True
+            return f
+        g = dict(model.globs)
+        g["IntegrityChecker"] = Namespace(
+            "IntegrityChecker",
+            **{"__dict__": {n: rec(n) for n in model.methods}})
+        me = Namespace("self", ds=model.base(), has_fluorescence=has_fl,
+                       warn_cues=[])
+        model.interp.steps = 0
+        try:
+            Func(chk, g, model.interp)(me)
+        except ModelRaise as e:
+            raise AnalysisError(f"IntegrityChecker.check raises {e} on the "
+                                "model dataset")
+        out.append(set(calls))
+    return out
 
 
 # ----------------------------------------------------------------------
 # R13.1
 
-def r131(ctx, repo, model, pattern):
+def r131(ctx, repo, model, pattern, sets):
     cls = model.cls
-    collected = collected_names(model, pattern)
+    s_nofl, s_fl = sets
+    collected = sorted(s_fl | s_nofl)
 
     def violations(name, ds):
         cues = model.run_method(name, ds)
@@ -303,17 +330,19 @@ def r131(ctx, repo, model, pattern):
                 return n
         return None
 
-    def seeded(cls_label, designated, label, mutate, match, what):
+    def seeded(cls_label, designated, label, mutate, match, what,
+               fluor=False):
         ds = model.base()
         mutate(ds)
         hit = search(designated, ds, match)
         node = model.methods.get(designated, cls)
-        ok = hit is not None and hit.startswith(pattern)
+        ok = hit is not None and hit in (s_fl if fluor else s_nofl)
         if hit is None:
-            msg = (f"{what}: no check method selected by the collector "
-                   f"('{pattern}*') reports it as a violation")
+            msg = (f"{what}: no check method run by the collector reports "
+                   "it as a violation")
         elif not ok:
-            msg = f"{what}: only reported by {hit}, which is not collected"
+            msg = (f"{what}: only reported by {hit}, which the collector "
+                   "skips for datasets without fluorescence")
         else:
             msg = f"{what} -> violation from {hit}"
         ctx.ob("R13.1", ok, msg, node=node,
@@ -422,7 +451,7 @@ def r131(ctx, repo, model, pattern):
                 del ds.config[sec][key]
             seeded("missing metadata", "check_metadata_missing",
                    f"[{sec}] {key}", m, key_is(sec, key),
-                   f"missing [{sec}] '{key}'")
+                   f"missing [{sec}] '{key}'", fluor=sec in imp_fl)
 
     def m(ds):
         del ds.config["imaging"]
@@ -446,7 +475,8 @@ def r131(ctx, repo, model, pattern):
     # 5 index
     for label, data in (("index starts at 0", list(range(N))),
                         ("index repeats", [1, 2, 2, 4, 5][:N]),
-                        ("index reversed", list(range(N, 0, -1)))):
+                        ("index reversed", list(range(N, 0, -1))),
+                        ("last index wrong", list(range(1, N)) + [N + 2])):
         def m(ds, data=data):
             ds.feats["index"] = NdArray.of(data, "int")
         seeded("index", "check_feat_index", label, m, has("index"),
@@ -460,7 +490,8 @@ def r131(ctx, repo, model, pattern):
         seeded("channel count", "check_fl_num_channels",
                f"channel count {val}", m,
                key_is("fluorescence", "channel count"),
-               f"channel count {val} with 2 named channels present")
+               f"channel count {val} with 2 named channels present",
+               fluor=True)
     clean("channel count", "check_fl_num_channels")
 
     # 7 laser count
@@ -469,7 +500,7 @@ def r131(ctx, repo, model, pattern):
             ds.config["fluorescence"]["laser count"] = val
         seeded("laser count", "check_fl_num_lasers", f"laser count {val}",
                m, key_is("fluorescence", "laser count"),
-               f"laser count {val} with one active laser")
+               f"laser count {val} with one active laser", fluor=True)
     clean("laser count", "check_fl_num_lasers")
 
     # 8 samples per event
@@ -479,7 +510,8 @@ def r131(ctx, repo, model, pattern):
         seeded("samples per event", "check_fl_samples_per_event",
                f"samples per event {val}", m,
                key_is("fluorescence", "samples per event"),
-               f"samples per event {val} for traces of {SPE} samples")
+               f"samples per event {val} for traces of {SPE} samples",
+               fluor=True)
     clean("samples per event", "check_fl_samples_per_event")
 
     # 9 external links
@@ -534,15 +566,15 @@ def r131(ctx, repo, model, pattern):
 # R13.2
 
 def collector_pattern(repo):
+    """the documented law: 'calls all class methods that start with
+    `check_`'"""
     chk = repo.func(CHK, "IntegrityChecker.check")
-    pats = []
-    for c in find_calls(chk, attr="startswith"):
-        if c.args and const_str(c.args[0]):
-            pats.append(const_str(c.args[0]))
-    if not pats:
-        raise AnalysisError("IntegrityChecker.check: name pattern lost")
-    pats.sort(key=len)
-    return pats[0], chk
+    doc = ast.get_docstring(chk) or ""
+    m = re.search(r"start with\s+`([A-Za-z_]+)`", doc)
+    if not m:
+        raise AnalysisError("IntegrityChecker.check: documented name "
+                            "pattern not found in the docstring")
+    return m.group(1), chk
 
 
 def r132(ctx, repo, model, pattern, chk):
@@ -572,8 +604,7 @@ def r132(ctx, repo, model, pattern, chk):
         except ModelRaise as e:
             out, err = None, e
         want = [n for n in names if n.startswith(pattern)
-                and (has_fl or not n.startswith("check_fl_"))]
-        want = [n for n in want if n.startswith("check_")]
+                and (has_fl or not n.startswith(pattern + "fl_"))]
         got = [n for n, _ in calls]
         problems = []
         if err is not None:
@@ -611,7 +642,7 @@ def r132(ctx, repo, model, pattern, chk):
            label="refuses filtered datasets", nontrivial=False)
 
     # every collected method returns a list on every path
-    for name in collected_names(model, pattern):
+    for name in sorted(n for n in model.methods if n.startswith(pattern)):
         f = model.methods[name]
         lists = set()
         for n in walk(f):
@@ -666,43 +697,51 @@ def r132(ctx, repo, model, pattern, chk):
                else "two levels share a rank", node=d,
                key=f"{CHK}::ICue.__lt__::distinct ranks", nontrivial=False)
 
-    # check_dataset routing
+    # check_dataset routing (interpreted)
     cd = repo.func(CHK, "check_dataset")
-    route = {}
-    for n in walk(cd):
-        if isinstance(n, ast.If) and isinstance(n.test, ast.Compare) \
-                and len(n.test.ops) == 1 and isinstance(
-                    n.test.ops[0], ast.Eq):
-            lv = const_str(n.test.comparators[0]) or const_str(n.test.left)
-            if lv is None or "level" not in txt(n.test):
-                continue
-            apps = [c for s in n.body for c in find_calls(s, attr="append")]
-            if len(apps) == 1 and isinstance(apps[0].func.value, ast.Name):
-                route[lv] = apps[0].func.value.id
-    for lv in sorted(levels):
-        ok = lv in route
-        ctx.ob("R13.2", ok, f"check_dataset collects level '{lv}'" if ok
-               else f"check_dataset drops cues of level '{lv}'", node=cd,
+    seen_kw = []
+
+    def mk(level, msg):
+        return Namespace("ICue", level=level, msg=msg)
+    cues = [mk("violation", "v2"), mk("alert", "a1"), mk("info", "i1"),
+            mk("violation", "v1"), mk("alert", "a2")]
+
+    def checker(path_or_ds):
+        def check(**kw):
+            seen_kw.append(kw)
+            return list(cues)
+        check.model_callable = True
+        me = Namespace("ic", check=check)
+        me.__dict__["__enter__"] = lambda: me
+        return me
+    checker.model_callable = True
+    g = dict(model.globs)
+    g["IntegrityChecker"] = checker
+    model.interp.steps = 0
+    try:
+        out = Func(cd, g, model.interp)("model.rtdc")
+    except ModelRaise as e:
+        out = f"raises {e.name}"
+    want = (["v1", "v2"], ["a1", "a2"], ["i1"])
+    ok = isinstance(out, tuple) and len(out) == 3 and all(
+        isinstance(x, list) for x in out)
+    for i, lv in enumerate(("violation", "alert", "info")):
+        good = ok and sorted(out[i]) == want[i]
+        ctx.ob("R13.2", good,
+               f"check_dataset returns the {lv} messages at position {i}"
+               if good else
+               f"check_dataset: position {i} of the result should hold the "
+               f"{lv} messages {want[i]}, got "
+               f"{out[i] if ok else out}", node=cd,
                key=f"{CHK}::check_dataset::routes {lv}")
-    ok = len(set(route.values())) == len(route)
-    rets = [n for n in walk(cd) if isinstance(n, ast.Return)]
-    order = []
-    if len(rets) == 1 and isinstance(rets[0].value, ast.Tuple):
-        for e in rets[0].value.elts:
-            nm = names_in(e) & set(route.values())
-            order.append(nm.pop() if len(nm) == 1 else None)
-    want = [route.get("violation"), route.get("alert"), route.get("info")]
-    ok = ok and order == want and None not in want
-    ctx.ob("R13.2", ok, "check_dataset returns (violations, alerts, info)"
-           if ok else f"check_dataset returns {order}, documented order is "
-           f"(violations, alerts, info) = {want}", node=rets[0] if rets
-           else cd, key=f"{CHK}::check_dataset::return order")
-    call = [c for c in find_calls(cd, attr="check")]
-    ok = len(call) == 1 and not isinstance(call[0].parent, ast.Subscript)
-    ctx.ob("R13.2", ok, "check_dataset evaluates all cues of check()"
-           if ok else "check_dataset does not iterate all cues of check()",
-           node=cd, key=f"{CHK}::check_dataset::all cues",
-           nontrivial=False)
+    ok = len(seen_kw) == 1
+    ctx.ob("R13.2", ok, "check_dataset runs the checks once" if ok else
+           f"check_dataset runs the checks {len(seen_kw)} times", node=cd,
+           key=f"{CHK}::check_dataset::all cues", nontrivial=False)
+    for lv in sorted(levels - {"violation", "alert", "info"}):
+        ctx.ob("R13.2", False, f"level '{lv}' used by an ICue is not one of "
+               "the three levels check_dataset returns", node=cd,
+               key=f"{CHK}::check_dataset::unknown level {lv}")
 
     # CLI
     vd = repo.func(CLI, "verify_dataset")
@@ -863,9 +902,12 @@ def r133(ctx, repo, model):
             try:
                 Func(rm, g, interp)(me)
             except ModelRaise as e:
-                raise AnalysisError(f"rectify_metadata raises {e} for the "
-                                    f"model features {combo}")
+                fails["event count"].append(
+                    (combo, f"rectify_metadata raises {e.name} when the "
+                     "writer context is left"))
+                continue
             written |= set(h5.attrs)
+            model.rectified["+".join(combo)] = dict(h5.attrs)
             cfg = Cfg()
             for k, v in h5.attrs.items():
                 sec, key = k.split(":")
@@ -875,6 +917,17 @@ def r133(ctx, repo, model):
             if "event count" not in cfg["experiment"]:
                 fails["event count"].append((combo, "not written"))
                 continue
+            if ("image" in combo or "mask" in combo) and not (
+                    "roi size x" in cfg["imaging"]
+                    and "roi size y" in cfg["imaging"]):
+                fails["roi size"].append(
+                    (combo, "[imaging] roi size x/y not written"))
+            if "trace" in combo and "samples per event" not in cfg[
+                    "fluorescence"]:
+                fails["samples per event"].append((combo, "not written"))
+            if "fl1_max" in combo and "channel count" not in cfg[
+                    "fluorescence"]:
+                fails["channel count"].append((combo, "not written"))
             ds = Ds("ds", feats=feats, config=cfg, _events=dict(feats),
                     features_innate=sorted(feats), features=sorted(feats),
                     format="hdf5", h5file=h5)
@@ -902,8 +955,10 @@ def r133(ctx, repo, model):
                f"{what}: what rectify_metadata derives satisfies the "
                f"checker for all {n_sets} model feature sets" if not bad
                else f"{what}: a file with the features "
-               f"{'+'.join(bad[0][0])} written by RTDCWriter is flagged: "
-               f"'{bad[0][1]}' ({len(bad)} of {n_sets} feature sets)",
+               f"{'+'.join(max(bad, key=lambda b: len(b[0]))[0])} written "
+               f"by RTDCWriter is flagged: "
+               f"'{max(bad, key=lambda b: len(b[0]))[1]}' ({len(bad)} of "
+               f"{n_sets} feature sets)",
                node=rm, key=f"{WR}::RTDCWriter.rectify_metadata::{what} "
                "agrees with the checker")
     # docstring law
@@ -955,16 +1010,325 @@ def run(ctx):
              "keys are defined and not optional", minimum=95)
     ctx.rule("R13.2", "collector runs every check_* once without early "
              "exit; checks return lists; levels known to ordering and "
-             "routing; CLI exit codes as documented", minimum=45)
+             "routing; CLI exit codes as documented", minimum=40)
     ctx.rule("R13.3", "metadata derived by rectify_metadata satisfy the "
              "checker on every model feature set; docstring keys; run on "
              "exit", minimum=6)
     model = Model(repo)
     pattern, chk = collector_pattern(repo)
-    r131(ctx, repo, model, pattern)
+    sets = collected_sets(model, chk)
+    r131(ctx, repo, model, pattern, sets)
     r132(ctx, repo, model, pattern, chk)
     r133(ctx, repo, model)
+    ctx.model = model
+    ctx.sets = sets
 
 
-MUTANTS = []
-TWINS = []
+def crossval(ctx):
+    """thorough: the folded tables, the set of collected checks and the
+    modelled rectify_metadata are compared with the imported package (the
+    real writer on five small files) – validates the model, decides
+    nothing"""
+    import json
+    import os
+    import subprocess
+    model = ctx.model
+    mine = {
+        "important": model.globs["IMPORTANT_KEYS"],
+        "important_fl": model.globs["IMPORTANT_KEYS_FL"],
+        "optional": model.globs["OPTIONAL_KEYS"],
+        "config_keys": model.cfgkeys,
+        "collected_nofl": sorted(ctx.sets[0]),
+        "collected_fl": sorted(ctx.sets[1]),
+    }
+    combos = ["deform", "deform+image", "volume+mask", "volume+trace",
+              "deform+trace+fl1_max"]
+    code = r"""
+import json, sys, tempfile, pathlib, warnings
+import numpy as np, h5py
+import dclab
+from dclab.rtdc_dataset import check as ck
+from dclab import definitions as dfn
+warnings.simplefilter("ignore")
+N, H, W, SPE = %d, %d, %d, %d
+names = sorted(n for n in ck.IntegrityChecker.__dict__
+               if n.startswith("check_"))
+out = {"important": ck.IMPORTANT_KEYS, "important_fl": ck.IMPORTANT_KEYS_FL,
+       "optional": ck.OPTIONAL_KEYS,
+       "config_keys": {k: list(v) for k, v in dfn.config_keys.items()},
+       "collected_fl": names,
+       "collected_nofl": [n for n in names if not n.startswith("check_fl_")]}
+rect = {}
+with tempfile.TemporaryDirectory() as td:
+    for combo in json.load(sys.stdin):
+        p = pathlib.Path(td) / (combo.replace("+", "_") + ".rtdc")
+        with dclab.RTDCWriter(p) as hw:
+            for f in combo.split("+"):
+                if f == "trace":
+                    hw.store_feature("trace", {
+                        "fl1_median": np.zeros((N, SPE), dtype=np.int16),
+                        "fl1_raw": np.zeros((N, SPE), dtype=np.int16)})
+                elif f == "image":
+                    hw.store_feature(f, np.zeros((N, H, W), dtype=np.uint8))
+                elif f == "mask":
+                    hw.store_feature(f, np.zeros((N, H, W), dtype=bool))
+                else:
+                    hw.store_feature(f, np.linspace(1, 2, N))
+        with h5py.File(p) as h5:
+            rect[combo] = {k: int(v) for k, v in h5.attrs.items()
+                           if k != "setup:software version"}
+out["rect"] = rect
+print(json.dumps(out))
+""" % (N, H, W, SPE)
+    env = dict(os.environ)
+    env["PYTHONPATH"] = str(ctx.repo.root)
+    try:
+        r = subprocess.run(["/venv/bin/python", "-W", "ignore", "-c", code],
+                           input=json.dumps(combos), capture_output=True,
+                           text=True, timeout=180, cwd="/tmp", env=env)
+        real = json.loads(r.stdout.strip().splitlines()[-1])
+    except Exception as e:
+        return {"status": "skipped", "reason": str(e)[:200]}
+    for k, v in mine.items():
+        if real[k] != v:
+            raise AnalysisError(f"folded `{k}` disagrees with the imported "
+                                "package")
+    for c in combos:
+        m = {k: int(v) for k, v in model.rectified[c].items()}
+        if real["rect"][c] != m:
+            raise AnalysisError(
+                f"modelled rectify_metadata disagrees with the real writer "
+                f"for {c}: model {m}, real {real['rect'][c]}")
+    return {"status": "agrees", "tables": len(mine),
+            "collected_checks": len(mine["collected_fl"]),
+            "writer_files_compared": len(combos)}
+
+
+MUTANTS = [
+    # ---- R13.1
+    ("feature size: only longer features flagged", CHK,
+     ("                if len(self.ds[feat]) != lends:",
+      "                if len(self.ds[feat]) > lends:"), "R13.1"),
+    ("feature size: trace compared with <", CHK,
+     ('                    if len(self.ds["trace"][tr]) != lends:',
+      '                    if len(self.ds["trace"][tr]) < lends:'), "R13.1"),
+    ("feature size demoted to alert", CHK,
+     ('                        level="violation",\n'
+      '                        category="feature size"))',
+      '                        level="alert",\n'
+      '                        category="feature size"))'), "R13.1"),
+    ("roi: axis off by one", CHK,
+     ("                        soll = self.ds[feat].shape[ii+1]",
+      "                        soll = self.ds[feat].shape[ii]"), "R13.1"),
+    ("roi: x and y exchanged", CHK,
+     ('            for ii, roi in enumerate(["roi size y", "roi size x"]):',
+      '            for ii, roi in enumerate(["roi size x", "roi size y"]):'),
+     "R13.1"),
+    ("roi: mask not compared", CHK,
+     ('                for feat in ["image", "image_bg", "mask"]:\n'
+      '                    if feat in self.ds:',
+      '                for feat in ["image", "image_bg"]:\n'
+      '                    if feat in self.ds:'), "R13.1"),
+    ("roi: mismatch demoted", CHK,
+     ('                                level="violation",\n'
+      '                                category="metadata wrong",\n'
+      '                                cfg_section="imaging",',
+      '                                level="alert",\n'
+      '                                category="metadata wrong",\n'
+      '                                cfg_section="imaging",'), "R13.1"),
+    ("unknown features: ignore test inverted", CHK,
+     ("                    if feat in ignore_unknown_features:",
+      "                    if feat not in ignore_unknown_features:"),
+     "R13.1"),
+    ("unknown features: check renamed out of the pattern", CHK,
+     ("    def check_features_unknown_hdf5(self, **kwargs):",
+      "    def features_unknown_hdf5_check(self, **kwargs):"), "R13.1"),
+    ("unknown features: runs for fluorescence data only", CHK,
+     ("    def check_features_unknown_hdf5(self, **kwargs):",
+      "    def check_fl_features_unknown_hdf5(self, **kwargs):"), "R13.1"),
+    ("missing important key is an alert", CHK,
+     ('                            level = "violation"\n',
+      '                            level = "alert"\n'), "R13.1"),
+    ("important key listed as optional", CHK,
+     ('        "run identifier",\n        "timestamp",\n',
+      '        "run identifier",\n        "timestamp",\n        "date",\n'),
+     "R13.1"),
+    ("important key misspelled", CHK,
+     ('        "flash duration",', '        "flash-duration",'), "R13.1"),
+    ("missing section: levels exchanged", CHK,
+     ('level="violation" if sec in important else "alert"',
+      'level="alert" if sec in important else "violation"'), "R13.1"),
+    ("fluorescence keys never mandatory", CHK,
+     ("        if self.has_fluorescence:\n"
+      "            important.update(IMPORTANT_KEYS_FL)\n", ""), "R13.1"),
+    ("index compared with 0..n-1", CHK,
+     ('np.all(self.ds["index"] == np.arange(1, lends + 1))',
+      'np.all(self.ds["index"] == np.arange(lends))'), "R13.1"),
+    ("index: range one short", CHK,
+     ('np.all(self.ds["index"] == np.arange(1, lends + 1))',
+      'np.all(self.ds["index"][:-1] == np.arange(1, lends))'), "R13.1"),
+    ("index demoted", CHK,
+     ('                    msg="The index feature is not enumerated '
+      'correctly",\n                    level="violation"',
+      '                    msg="The index feature is not enumerated '
+      'correctly",\n                    level="alert"'), "R13.1"),
+    ("channel count: only too few flagged", CHK,
+     ("            if chc1 != chc2:", "            if chc1 < chc2:"), "R13.1"),
+    ("laser count: only too many flagged", CHK,
+     ("            if lsc1 != lsc2:", "            if lsc1 > lsc2:"), "R13.1"),
+    ("samples per event: only longer traces flagged", CHK,
+     ("                    if spek != spe:", "                    if spek > spe:"),
+     "R13.1"),
+    ("samples per event measured along the events", CHK,
+     ('                    spek = self.ds["trace"][key][0].size',
+      '                    spek = len(self.ds["trace"][key])'), "R13.1"),
+    ("external link demoted", CHK,
+     ("                        f\"link: '{h5object}'\",\n"
+      '                    level="violation"',
+      "                        f\"link: '{h5object}'\",\n"
+      '                    level="alert"'), "R13.1"),
+    ("external links: no recursion into groups", CHK,
+     ("            has_ext, path_ext = hdf5_has_external(obj)\n"
+      "            if has_ext:", "            has_ext, path_ext = "
+      "hdf5_has_external(obj)\n            if False:"), "R13.1"),
+    ("external links: virtual datasets accepted", CHK,
+     ("                    and (obj.is_virtual  # virtual dataset\n"
+      "                         or obj.external))):  # external dataset",
+      "                    and obj.external)):  # external dataset"),
+     "R13.1"),
+    ("external links: same-file test inverted", CHK,
+     ("        if (obj.file != h5.file  # not in same file",
+      "        if (obj.file == h5.file  # not in same file"), "R13.1"),
+    ("zero accepted as set-up value", CHK,
+     ("            if value is not None and value <= 0:",
+      "            if value is not None and value < 0:"), "R13.1"),
+    ("non-positive value demoted", CHK,
+     ("                        + f\"'{value}'!\",\n"
+      '                    level="violation"',
+      "                        + f\"'{value}'!\",\n"
+      '                    level="alert"'), "R13.1"),
+    # ---- R13.2
+    ("collector keeps only the last check", CHK,
+     ("                cues += funcs[ff](self, **kwargs)",
+      "                cues = funcs[ff](self, **kwargs)"), "R13.2"),
+    ("collector stops after the first cue", CHK,
+     ("                cues += funcs[ff](self, **kwargs)\n",
+      "                cues += funcs[ff](self, **kwargs)\n"
+      "                if cues:\n                    break\n"), "R13.2"),
+    ("collector drops the keyword arguments", CHK,
+     ("                cues += funcs[ff](self, **kwargs)",
+      "                cues += funcs[ff](self)"), "R13.2"),
+    ("fluorescence skip inverted", CHK,
+     ('            if ff.startswith("check_fl_") and not '
+      'self.has_fluorescence:',
+      '            if ff.startswith("check_fl_") and self.has_fluorescence:'),
+     "R13.2"),
+    ("warning cues dropped", CHK,
+     ("        return sorted(self.warn_cues + cues)",
+      "        return sorted(cues)"), "R13.2"),
+    ("collector pattern narrowed", CHK,
+     ('            elif ff.startswith("check_"):',
+      '            elif ff.startswith("check_f"):'), "R13.2"),
+    ("a check falls off the end", CHK,
+     ('                category="feature data"))\n        return cues\n\n'
+      '    def check_external_links',
+      '                category="feature data"))\n\n'
+      '    def check_external_links'), "R13.2"),
+    ("a check returns early without a list", CHK,
+     ('        cues = []\n        lends = len(self.ds)\n'
+      '        if "index" in self.ds:',
+      '        cues = []\n        lends = len(self.ds)\n'
+      '        if lends == 0:\n            return\n'
+      '        if "index" in self.ds:'), "R13.2"),
+    ("ordering does not know alerts", CHK,
+     ('                  "violation": 1,\n                  "alert": 2, }',
+      '                  "violation": 1, }'), "R13.2"),
+    ("alerts routed into the violations", CHK,
+     ("                aler.append(cue.msg)",
+      "                viol.append(cue.msg)"), "R13.2"),
+    ("check_dataset return order", CHK,
+     ("    return sorted(viol), sorted(aler), sorted(info)",
+      "    return sorted(aler), sorted(viol), sorted(info)"), "R13.2"),
+    ("violations not collected by check_dataset", CHK,
+     ('            elif cue.level == "violation":\n'
+      '                viol.append(cue.msg)\n', ""), "R13.2"),
+    ("CLI: any finding gives code 3", CLI,
+     ("        if aler and viol:", "        if aler or viol:"), "R13.2"),
+    ("CLI: codes 1 and 2 exchanged", CLI,
+     ("        elif aler:\n            exit_status = 1\n"
+      "        elif viol:\n            exit_status = 2",
+      "        elif aler:\n            exit_status = 2\n"
+      "        elif viol:\n            exit_status = 1"), "R13.2"),
+    ("CLI: exceptions exit with success", CLI,
+     ("    exit_status = 4\n", "    exit_status = 0\n"), "R13.2"),
+    ("CLI: result unpacked in the wrong order", CLI,
+     ("        viol, aler, info = check_dataset(path_in)",
+      "        aler, viol, info = check_dataset(path_in)"), "R13.2"),
+    ("CLI: violations alone are a success", CLI,
+     ("        elif viol:\n            exit_status = 2\n", ""), "R13.2"),
+    # ---- R13.3
+    ("event count from the trace group (repaired defect returns)", WR,
+     ('            if feats[0] == "trace" and len(feat0):',
+      '            if False:'), "R13.3"),
+    ("event count from the last feature", WR,
+     ('            feat0 = self.h5file["events"][feats[0]]',
+      '            feat0 = self.h5file["events"][feats[-1]]'), "R13.3"),
+    ("roi size x from the image height", WR,
+     ('            self.h5file.attrs["imaging:roi size x"] = shape[1]',
+      '            self.h5file.attrs["imaging:roi size x"] = shape[0]'),
+     "R13.3"),
+    ("roi from the stack shape", WR,
+     ('            shape = self.h5file["events"]["image"][0].shape',
+      '            shape = self.h5file["events"]["image"].shape'), "R13.3"),
+    ("roi not derived from the mask", WR,
+     ('            shape = self.h5file["events"]["mask"][0].shape',
+      '            shape = None'), "R13.3"),
+    ("samples per event from the event axis", WR,
+     ('[traces[0]].shape[1]', '[traces[0]].shape[0]'), "R13.3"),
+    ("channel count never written", WR,
+     ('                self.h5file.attrs["fluorescence:channel count"] = '
+      'chcount', '                pass'), "R13.3"),
+    ("metadata not rectified on exit", WR,
+     ("                self.rectify_metadata()\n", "                pass\n"),
+     "R13.3"),
+]
+
+TWINS = [
+    ("feature size via negated equality", CHK,
+     ("                if len(self.ds[feat]) != lends:",
+      "                if not len(self.ds[feat]) == lends:")),
+    ("collector iterates the dict directly", CHK,
+     ("        for ff in sorted(funcs.keys()):",
+      "        for ff in sorted(funcs):")),
+    ("CLI code computed from flags", CLI,
+     ("        if aler and viol:\n            exit_status = 3\n"
+      "        elif aler:\n            exit_status = 1\n"
+      "        elif viol:\n            exit_status = 2\n"
+      "        else:\n            # everything is ok\n"
+      "            exit_status = 0\n",
+      "        exit_status = (1 if aler else 0) + (2 if viol else 0)\n")),
+    ("non-positive test negated", CHK,
+     ("            if value is not None and value <= 0:",
+      "            if value is not None and not value > 0:")),
+    ("roi sizes through an unpacked tuple", WR,
+     ('            self.h5file.attrs["imaging:roi size x"] = shape[1]\n'
+      '            self.h5file.attrs["imaging:roi size y"] = shape[0]\n',
+      '            size_y, size_x = shape[0], shape[1]\n'
+      '            self.h5file.attrs["imaging:roi size x"] = size_x\n'
+      '            self.h5file.attrs["imaging:roi size y"] = size_y\n')),
+    ("hdf5_has_external without for-else", CHK,
+     ("    else:\n        return False, None",
+      "    return False, None")),
+    ("check_dataset routes through a dict", CHK,
+     ('            if cue.level == "info":\n'
+      '                info.append(cue.msg)\n'
+      '            elif cue.level == "alert":\n'
+      '                aler.append(cue.msg)\n'
+      '            elif cue.level == "violation":\n'
+      '                viol.append(cue.msg)\n',
+      '            {"info": info, "alert": aler,\n'
+      '             "violation": viol}[cue.level].append(cue.msg)\n')),
+    ("index check with an explicit range", CHK,
+     ('np.all(self.ds["index"] == np.arange(1, lends + 1))',
+      'np.all(self.ds["index"] == np.arange(lends) + 1)')),
+]
